@@ -1101,6 +1101,8 @@ func main() {
 	c.Floor("history_observations", int64(c.N(3000, 60000))/sh, c.Counter("history_observations"))
 	c.Floor("history_mutations", int64(c.N(3000, 60000))/sh, c.Counter("history_mutations"))
 	c.Floor("observe_mutate_observe", int64(c.N(1200, 24000))/sh, c.Counter("observe_mutate_observe"))
+	c.Floor("held_snapshot_checks", int64(c.N(8000, 160000))/sh, c.Counter("held_snapshot_checks"))
+	c.Floor("snapshots_scribbled", int64(c.N(100, 2000))/sh, c.Counter("snapshots_scribbled"))
 	for _, kind := range []string{"Offer-grow", "Offer-nogrow", "AddAll-grow", "AddAll-nogrow", "AddAll-rejected"} {
 		c.Floor("observe_only_"+kind+"_observe", int64(c.N(32, 640))/sh, c.Counter("observe_only_"+kind+"_observe"))
 	}
